@@ -41,14 +41,17 @@ var importMap = map[string][2]string{
 var selMap = map[string]string{
 	"time.NewTicker":  "NewTicker",
 	"time.Ticker":     "Ticker",
+	"time.NewTimer":   "NewTimer",
+	"time.Timer":      "Timer",
+	"time.After":      "After",
+	"time.AfterFunc":  "AfterFunc",
+	"time.Tick":       "Tick",
 	"time.Now":        "Now",
 	"time.Sleep":      "Sleep",
 	"runtime.Gosched": "Yield",
 }
 
-var selForbidden = map[string]bool{
-	"time.After": true, "time.NewTimer": true, "time.AfterFunc": true, "time.Tick": true, "time.Timer": true,
-}
+var selForbidden = map[string]bool{}
 
 func fatalf(f string, a ...interface{}) {
 	fmt.Fprintf(os.Stderr, "instrument: "+f+"\n", a...)
@@ -175,7 +178,7 @@ type rewriter struct {
 	changed bool
 	needRT  bool
 
-	skip      map[ast.Node]bool   // comm-clause nodes handled by the select rewrite
+	skip      map[ast.Node]bool      // comm-clause nodes handled by the select rewrite
 	rangeKind map[*ast.RangeStmt]int // 1 chan, 2 ordered map
 	builtin   map[*ast.CallExpr]string
 	recv2     map[ast.Node]bool
